@@ -146,6 +146,12 @@ type W4T struct {
 	M map[string]W4In2 `json:"m"`
 }
 
+type W5T struct {
+	A []*int64 `json:"a"`
+	S string   `json:"s"`
+	B []*Inner `json:"b"`
+}
+
 type wireDesc struct {
 	Name   string
 	Schema *ref.Schema
@@ -193,6 +199,10 @@ func init() {
 			fld("m", mp(rec("W4In2c", fld("r", rec("W4In3e", fld("a", arr(arr(mp(arr(P("long")))))), fld("s", P("string")))),
 				fld("p", un(P("null"), rec("W4In3f", fld("a", arr(arr(mp(arr(P("long")))))), fld("s", P("string"))))))))),
 			reflect.TypeFor[W4T]()},
+		// W5: long arrays of nullable items — every non-null item is one bank
+		// allocation, so a single record makes tens of thousands of them
+		{"W5", rec("W5", fld("a", arr(un(P("null"), P("long")))), fld("s", P("string")), fld("b", arr(un(P("null"), inner("InnerB"))))),
+			reflect.TypeFor[W5T]()},
 	}
 }
 
@@ -222,6 +232,10 @@ var timeDict = []string{
 	"2006-01-02T15:04:05+08:0", "2006-01-02T15:04:05.123456789012345678901234567890Z", "2006-01-02", "2006-01-0", "", "T", "2006-01-02T",
 	"2006-01-02T15:04:05-99:99", "9999-99-99T99:99:99Z", "2006-01-02T15:04:05.1+", "2006-01-02T15:04:05.\xff", "2006-01-02T15:04:05\x00", "0000-00-00T00:00:00.0000000000000000000000000000000000000000Z",
 	"2006-01-02T15:04:05.5-", "2006-01-02T15:04:05,5+1", "２００６-01-02T15:04:05Z",
+	// one- and two-character texts (a lenient parser that strips quotes, signs or
+	// brackets must still check what is left)
+	"\"", "\"\"", "'", "''", "{", "[", "-", "+", "T", "Z", ".", ",", " ", "0", "\"2006-01-02T15:04:05Z", "2006-01-02T15:04:05Z\"", "\"2006-01-02T15:04:05Z\"",
+	"2006-01-02T15:04:05.1234567890Z", "2006-01-02T15:04:05.12345678901234567890+01:00", "2006-01-02t15:04:05z", "2006-01-02 15:04:05Z", "+2006-01-02T15:04:05Z", "-006-01-02T15:04:05Z",
 }
 
 func c06BuildArtifact(pl *C06Plan) (*c06Artifact, error) {
@@ -257,6 +271,9 @@ func c06BuildArtifact(pl *C06Plan) (*c06Artifact, error) {
 		w := wires[pl.Wire%len(wires)]
 		r := NewRng(pl.WSeed, 0x6e)
 		o := ref.GenOpts{MaxLen: 12, MaxItems: 4, TimeText: func() string { return genTime(r).Format(time.RFC3339Nano) }}
+		if w.Name == "W5" {
+			o.MaxItems = []int{40, 3000, 20000, 45000}[pl.WSeed%4]
+		}
 		a.target = w.Target
 		a.codec = pl.WCodec
 		a.schemaJSON = w.Schema.JSON()
@@ -597,7 +614,7 @@ func (c06Prop) Generate(seed uint64, idx int, tier string) *Plan {
 		pl.File = fs
 	} else {
 		pl.Src = "wire"
-		pl.Wire = r.PickInt([]int{0, 1, 1, 1, 2, 2, 2, 3, 3, 3, 4, 4}) // W0 (zero-width items, known finding D11) less often
+		pl.Wire = r.PickInt([]int{0, 1, 1, 1, 2, 2, 2, 3, 3, 3, 4, 4, 5}) // W0 (zero-width items, known finding D11) less often
 		pl.WSeed = r.Uint64()
 		pl.WN = r.Range(1, 6)
 		pl.WCodec = r.Pick([]string{"null", "null", "null", "deflate", "snappy", "none"})
@@ -620,6 +637,9 @@ func (c06Prop) Generate(seed uint64, idx int, tier string) *Plan {
 		pl.File = genBigFileSpec(r) // blocks larger than the reader's chunk size
 	}
 	if idx%enumEvery == enumEvery-1 {
+		if pl.Src == "wire" && pl.Wire == 5 {
+			pl.Wire = 1
+		}
 		pl.Enum = true
 		if pl.Src == "wire" {
 			pl.WN = r.Range(1, 2)
